@@ -266,14 +266,14 @@ def squeeze_specs(draw):
 
 
 @st.composite
-def same_leg_pairs(draw, ferm=False, syms=ALLSYMS, max_ndim=3):
+def same_leg_pairs(draw, ferm=False, syms=ALLSYMS, max_ndim=3, data=None):
     a = draw(gen.array_specs(ferm=ferm, syms=syms, max_ndim=max_ndim,
                              min_ndim=draw(st.sampled_from([0, 1, 2, 2, 2])),
-                             allow_empty=False))
+                             allow_empty=False, data=data))
     b = draw(
         gen.array_specs(symm=a["symm"], ferm=ferm, idxs=a["idxs"],
                         charge=a["charge"], dyn=a["dyn"], dtype=a["dtype"],
-                        label=a.get("oddpos"),
+                        label=a.get("oddpos"), data=data,
                         sparsity=draw(st.sampled_from(
                             ["sparse", "sparse", "single", None])))
     )
@@ -310,6 +310,54 @@ def law_binary(ch):
     ch.label(f"op={op}")
     ch.label("sectors-differ" if differ else "sectors-equal")
     ch.mark_nontrivial(differ)
+
+
+def law_allclose(ch):
+    """allclose(x, y) is the dense comparison (a missing block is a block of
+    zeros); integer-valued data, so no pair sits near the tolerance"""
+    import symmray as sr
+
+    pair = ch.draw(same_leg_pairs(data="int"), "pair")
+    a, b = gen.build(pair["a"]), gen.build(pair["b"])
+    if not a.blocks:
+        return
+    ref = _legs_ref(a)
+    variant = ch.choice(["pair", "copy", "perturbed", "perturbed",
+                         "zero-blocks", "dropped-block", "scaled"], "variant")
+    if variant == "pair":
+        y = b
+    elif variant == "copy":
+        y = a.copy()
+    elif variant == "perturbed":
+        y = a.copy()
+        secs = sorted(y.blocks)
+        sec = secs[ch.integer(0, len(secs) - 1, "sector")]
+        blk = np.array(y.blocks[sec])
+        if blk.size == 0:
+            return
+        flat = blk.reshape(-1)
+        flat[ch.integer(0, flat.size - 1, "element") % flat.size] += 1
+        y.blocks[sec] = flat.reshape(blk.shape)
+    elif variant == "zero-blocks":
+        y = a.copy()
+        must(y.fill_missing_blocks, what="fill_missing_blocks")
+    elif variant == "dropped-block":
+        y = a.copy()
+        secs = sorted(y.blocks)
+        del y.blocks[secs[ch.integer(0, len(secs) - 1, "sector")]]
+    else:
+        y = a * 2
+    da, dy = D.dense_of(a, ref=ref), D.dense_of(y, ref=ref)
+    want = bool(np.allclose(da, dy))
+    for (p, q, tag) in ((a, y, "x.allclose(y)"), (y, a, "y.allclose(x)")):
+        got = must(p.allclose, q, what="allclose")
+        require(bool(got) == want, "allclose:verdict",
+                lambda: f"{tag} = {got!r}, dense comparison says {want} "
+                        f"(variant {variant}, max |diff| "
+                        f"{np.abs(da - dy).max() if da.size else 0})")
+    ch.label(f"variant={variant}")
+    ch.label(f"equal={want}")
+    ch.mark_nontrivial(variant != "copy")
 
 
 @st.composite
@@ -733,6 +781,9 @@ LAWS = [
             "norm/abs/sqrt == numpy on the dense form; three call forms agree"),
     Law("array_binary", law_binary, quick=1200, thorough=16000,
         doc="+ (union), - (or raises), elementwise * (commutative) == dense"),
+    Law("allclose", law_allclose, quick=800, thorough=10000,
+        doc="allclose(x, y) == numpy.allclose on the dense forms, both "
+            "orders (differing element, missing / explicit zero blocks)"),
     Law("multiply_diagonal", law_multiply_diagonal, quick=800, thorough=10000,
         doc="multiply_diagonal with vectors missing charges == dense"),
     Law("vector_unary", law_vector_unary, quick=800, thorough=10000,
